@@ -118,3 +118,4 @@ package sessions
 //@ func (*Cache).SessionHandler props(C10,C07)
 //@   assigns nothing
 //@   ensures[C10:disabled-means-unwrapped] c == nil ==> r0 == wrapped
+//@   ensures[C10:handler-returned] wrapped != nil ==> r0 != nil
